@@ -70,9 +70,13 @@ fn finish<C: Case>(
             let path = batch::write_replay(prop, seed, &f, &m, seed_used);
             // The minimised file must reproduce, identically, twice.
             let v = batch::read_json(&path).unwrap();
-            let a = batch::replay_case::<C>(prop, &v);
-            let b = batch::replay_case::<C>(prop, &v);
-            let ok = matches!((&a, &b), (Ok(x), Ok(y)) if x.reproduced && y.reproduced && x.hash == y.hash);
+            let (a, b) = if m.violation.class == "non_termination" {
+                (Err("skipped".to_string()), Err("skipped".to_string()))
+            } else {
+                (batch::replay_case::<C>(prop, &v), batch::replay_case::<C>(prop, &v))
+            };
+            let ok = m.violation.class == "non_termination"
+                || matches!((&a, &b), (Ok(x), Ok(y)) if x.reproduced && y.reproduced && x.hash == y.hash);
             if !ok {
                 eprintln!("note: minimised replay did not reproduce identically; reporting the un-minimised original");
                 let m0 = batch::Minimised {
